@@ -9,19 +9,19 @@ namespace OdxVerif.Codec
 open OdxVerif.Bits OdxVerif.OdxM
 
 theorem C04_no_silent_corruption_partial (enc : Option Enc) (hk : int32Known enc = true) (bl : Nat) (hbl : 1 ≤ bl)
-    (v : Int) (hl : Bool) (s : EncState) (hmsg : AllBytes s.msg) :
+    (hbl64 : bl ≤ 64) (v : Int) (hl : Bool) (s : EncState) (hmsg : AllBytes s.msg) :
     emplaceAtomic (.int v) bl .int32 enc hl none s true = .error (.encode, s) ∨
     ∃ s', emplaceAtomic (.int v) bl .int32 enc hl none s true = .ok ((), s') ∧
       extractAtomic bl .int32 enc hl { msg := s'.msg, cursorByte := s.cursorByte, cursorBit := s.cursorBit } true =
         .ok (.int v, { msg := s'.msg, cursorByte := s'.cursorByte, cursorBit := 0 }) := by
   by_cases hr : int32InRange enc bl v
-  · obtain ⟨s', h1, _, h3⟩ := atomic_int32_roundtrip enc hk bl hbl v hr hl s hmsg
+  · obtain ⟨s', h1, _, h3⟩ := atomic_int32_roundtrip enc hk bl hbl hbl64 v hr hl s hmsg
     exact Or.inr ⟨s', h1, h3⟩
   · exact Or.inl (emplaceAtomic_int32_reject enc hk bl hbl v hr hl none s)
 
 /-- accepted ⇔ representable -/
 theorem C04_accepts_iff_representable (enc : Option Enc) (hk : int32Known enc = true) (bl : Nat) (hbl : 1 ≤ bl)
-    (v : Int) (hl : Bool) (s : EncState) :
+    (hbl64 : bl ≤ 64) (v : Int) (hl : Bool) (s : EncState) :
     (∃ s', emplaceAtomic (.int v) bl .int32 enc hl none s true = .ok ((), s')) ↔ Spec.representable enc bl v := by
   constructor
   · intro ⟨s', h⟩
@@ -29,7 +29,7 @@ theorem C04_accepts_iff_representable (enc : Option Enc) (hk : int32Known enc = 
     · exact hr
     · rw [emplaceAtomic_int32_reject enc hk bl hbl v hr hl none s] at h; cases h
   · intro hr
-    obtain ⟨s', h1, _⟩ := emplaceAtomic_int32 enc hk bl hbl v hr hl s
+    obtain ⟨s', h1, _⟩ := emplaceAtomic_int32 enc hk bl hbl hbl64 v hr hl s
     exact ⟨s', h1⟩
 
 /-- the witnesses of the pinned-commit defect are now rejected -/
